@@ -158,6 +158,36 @@ def unit_many(a):
     return stats
 
 
+# ------------------------------------------------------------------ (c') systematic fault combinations
+BLOCKS = {
+    "step": ["  Given x"], "table-ok": ["   | a | b |", "   | c | d |"], "table-ragged": ["   | a | b |", "   | c |"], "tag-ok": [" @ok"], "tag-bad": [" @bad tag"],
+    "tag-bad2": ["  @x @y z"], "garbage": ["garbage"], "scenario": [" Scenario: s"], "examples": ["  Examples:"], "outline": [" Scenario Outline: o"], "comment": [" # c"],
+    "blank": [""], "doc-open": ['   """'], "lang-bad": ["#language: xx"], "rule": [" Rule: r"], "background": [" Background:"], "feature": ["Feature: again"],
+}
+BLOCK_NAMES = sorted(BLOCKS)
+
+
+def unit_combos(a):
+    import itertools
+    stats = Stats()
+
+    def gen():
+        n = 0
+        for L in a["lengths"]:
+            for combo in itertools.product(BLOCK_NAMES, repeat=L):
+                n += 1
+                if n % a["nshards"] != a["shard"]:
+                    continue
+                if L == a["sampled_length"] and (n // a["nshards"]) % a["sample"] != a["seed"] % a["sample"]:
+                    continue
+                lines = ["Feature: f", " Scenario: s", "  Given x"]
+                for b in combo:
+                    lines += BLOCKS[b]
+                yield {"sub": "text", "label": "combo", "text": "\n".join(lines) + "\n"}
+    sweep(stats, gen(), check_text)
+    return stats
+
+
 # ------------------------------------------------------------------ (d) bad corpus
 def check_bad(case, stats):
     f = os.path.join(REPO, "testdata", "bad", case["file"])
@@ -220,9 +250,14 @@ def run(ctx):
     ctx.units("corpus", unit_bad, [{}])
     ctx.units("state-x-kind", unit_states, [{}])
     ctx.units("noisy-documents", unit_noisy, [{"n": 700 if q else 9000, "seed": ctx.seed, "shard": i} for i in range(4 if q else 16)], procs=16)
+    ns = 16
+    ctx.units("fault-combinations", unit_combos, [{"lengths": [1, 2, 3, 4] if q else [1, 2, 3, 4, 5], "sampled_length": 4 if q else 5, "sample": 2 if q else 3, "seed": ctx.seed,
+                                                   "shard": i, "nshards": ns} for i in range(ns)], procs=ns)
     ctx.units("many-faults", unit_many, [{"n": 150 if q else 2000, "seed": ctx.seed, "shard": i} for i in range(2 if q else 16)], procs=16)
     ctx.exhaustive = False
-    ctx.extra["exhaustive_part"] = "42 parser states x 13 line kinds (+ end of file, with and without final newline) as real English text; 42 expected lists vs siblings"
+    ctx.extra["exhaustive_part"] = ("42 parser states x 13 line kinds (+ end of file, with and without final newline) as real English text; 42 expected lists vs siblings; all sequences of "
+                                   "<= %d of %d fault/structure building blocks (ragged table, tag with blanks, garbage, unknown language, open doc string, ...) after a scenario step, plus a 1/%d sample of length %d" % (
+                                       3 if q else 4, len(BLOCKS), 2 if q else 3, 4 if q else 5))
     ctx.rule = ("every document is run through the real parser (collecting and stop mode) and the stream API, and through the table-driven reference parser "
                 "(sibling tables + reference lexer); the ordered error lists must be equal in (line, column, message); independent invariants: message starts "
                 "with its own position, unique, <= 11, inside the document, stop mode = first collected error, rejected source yields only parseError envelopes. "
